@@ -80,7 +80,8 @@ def run(chk, tier):
     mt.start()
 
     # ---------------- (C) real runs
-    cases = cf.plan(tier, rng)
+    extra = cf.add_repo_programs(b, rng, 12) if tier != "quick" else []
+    cases = cf.plan(tier, rng, extra)
     root = vlib.scratch("c18")
     tracedir = vlib.scratch("c18t")
     refcache = {}
@@ -277,5 +278,47 @@ def selftest():
 
 
 SELFTEST_NOTES = """
-(filled in below, see end of file)
+Binding demonstration (2026-10-04; quick tier; worktrees of /repo under /tmp, removed afterwards).
+
+Source mutations (each compiles; quick check run with VERIF_SRC=<worktree>/aldor/aldor/src):
+ M2 util.c:exitFailure      osExit(EXIT_FAILURE) -> osExit(EXIT_SUCCESS)          [hooks applied]
+      CAUGHT: 20+ VIOLATION lines, e.g. "-Fai with fault 'dir': exit 0, 1 error line(s) ... TLC: invariant HonestExit"
+ M3 axlcomp.c:compFilesLoop return totErrors -> return 0                          [hooks applied]
+      CAUGHT: 11 VIOLATION lines, e.g. "-Fao with fault 'devfull': exit 0, 1 error line(s) ... TLC: stuck NotABehaviour"
+      (the Exit(0) event after a printed error is not a step of Driver)
+ M5 axlcomp.c:compPhaseAbCheck  if (emitIsOutputNeededOrWarn(.., FTYPENO_ABSYN)) -> if (!emit...)   [hooks applied]
+      CAUGHT: 20+ VIOLATION lines on fault-free runs: "... '1:ap': 'absent' ... TLC: stuck NotABehaviour"
+      (PhEnd/EndFile/Exit(0) with a requested output never emitted)
+ M6 axlcomp.c:compFileError  comsgFatal -> comsgWarning + return fopen("/dev/null", mode)   [NO hooks: blind mode]
+      CAUGHT: 20+ VIOLATION lines, e.g. "-Fai with fault 'dir': exit 0, 0 error line(s), outputs {'1:ai': 'absent'} -- TLC: invariant CompleteOnSuccess"
+ Not a mutation but the inverse experiment: with hooks/fix-C18-checked-close.diff applied all 31 I/O-fault findings
+ disappear (only the two -Fmain naming findings remain); with hooks/fix-C18-main-output-name.diff as well the check
+ holds with 0 known-finding hits (354 runs accepted).
+ Limitation seen: a mutation that makes an emitter write *less* on every run (e.g. dropping foamWrSExpr) is not
+ caught, because 'complete' is defined relative to the fault-free output of the same compiler (C05/C17 territory).
+
+Recorded-event corruption (checks.c18.selftest(); one accepted fault-free run -Fao -Ffm -Fmain, one field changed):
+ unchanged                                   accepted
+ Observed: one output complete -> partial    rejected: invariant CompleteOnSuccess
+ Observed: exit 0 -> 3                       rejected: invariant HonestExit
+ Observed: error lines 0 -> 1                rejected: invariant HonestExit
+ Observed: signal 0 -> 11                    rejected: no Driver action (Fault)
+ OutClose rc 0 -> -1 / werr 0 -> 1           rejected at Exit(0): an unreported I/O failure rules out the successful exit
+ OutOpen ok true -> false                    rejected at the following OutClose
+ Exit event dropped / Exit status 0 -> 1     rejected (Observed without Exit / Exit(1) without a printed error)
+ OutClose event dropped                      rejected at PhEnd (a stream is still open)
+ Msg error inserted before the outputs       rejected at OutOpen(ao) (code output after a source error)
+ The blind-mode variants (no hooks) of the four Observed corruptions are rejected likewise.
+
+Model non-vacuity: DriverAsWritten.cfg (ChecksIo = FALSE, i.e. the pinned code's ignored fclose results) makes TLC refute
+CompleteOnSuccess; DriverWitness.cfg makes TLC exhibit a faulted run that ends in a non-zero exit; -coverage 1 on
+DriverLayer.cfg (quick) and Driver.cfg (thorough) is checked for taken > 0 of StartFile EndFile Phase PhEnd Msg IoFault
+OpenOut WriteOut CloseOut Cleanup Exit.
+
+Unchanged tree passes (exit 0, 33 KNOWN-FINDING lines) with VERIF_SEED=20261004 and 777, with and without hooks.
+
+Model corrections made during development (not findings): the first Driver required the report of an I/O failure
+*before any other step*; pairwise-fault runs where the second fault produced the fatal error were then rejected although
+the outcome (error printed, exit != 0) satisfies the statement of C18.  The model now only rules out the successful exit
+while a failure is unreported (pendingIo), and any error/fatal message discharges it.
 """
